@@ -313,6 +313,9 @@ pub fn c18(ctx: &mut Ctx) {
     }
     let n = ctx.n(8000, 800_000, 1);
     for k in 0..n {
+        if ctx.over_budget() {
+            break;
+        }
         let i = ctx.shard + k * ctx.nshards;
         ctx.rep.cur_case = format!("c18 {} seed {}", i, seed);
         c18_case(&mut ctx.rep, seed, i, false);
